@@ -6,7 +6,7 @@ CFG = {
     'uses_gen': True,
     'rule': 'names: documented-looking names with one systematic perturbation each; every Alpha16 board x every digit '
             'character 0-9A-Za-z and neighbours for B/C/A/b; PC x all two-digit numbers and near misses; multi-byte '
-            'UTF-8 at every slice index; all 4-byte names over a 39-symbol alphabet (digits, letters incl. F G V W Z and '
+            'UTF-8 at every slice index; all 4-byte names over a 46-symbol alphabet (digits, letters incl. F G V W Z and '
             'lower case, + - _ space NUL, two multi-byte characters) exhaustively in the thorough tier, sampled blocks in '
             'quick; lengths 0..=8 sampled; every one of the 10 parsers on every name; u8::from_str_radix on every ASCII '
             'char and short strings for radix 16/32/10/36/2. maps: runs 0..=20000 (thorough: all; quick: every arm '
